@@ -3,6 +3,7 @@ package c12
 
 import (
 	"fmt"
+	"google.golang.org/protobuf/types/known/timestamppb"
 	"strings"
 	"time"
 
@@ -131,7 +132,11 @@ func kinds() []copyKind {
 		{"Node", func() map[string]proto.Message {
 			em := fullNode("E", 2)
 			gen.EmptyMaps(em)
-			return map[string]proto.Message{"full": fullNode("A", 2), "full-empty-maps": em, "sparse": &sbom.Node{Id: "n", Name: "s", Suppliers: []*sbom.Person{{Name: "sup"}}}, "empty": &sbom.Node{}, "new": sbom.NewNode(), "aliased": aliasedNode()}
+			ext := fullNode("X", 1)
+			ext.ReleaseDate = &timestamppb.Timestamp{Seconds: -62135596800} // Go's zero time: the smallest valid timestamp
+			ext.BuildDate = &timestamppb.Timestamp{}                        // the epoch: present but empty message
+			ext.ValidUntilDate = &timestamppb.Timestamp{Seconds: 253402300799, Nanos: 999999999}
+			return map[string]proto.Message{"full": fullNode("A", 2), "full-empty-maps": em, "extreme-dates": ext, "sparse": &sbom.Node{Id: "n", Name: "s", Suppliers: []*sbom.Person{{Name: "sup"}}}, "empty": &sbom.Node{}, "new": sbom.NewNode(), "aliased": aliasedNode()}
 		}, func(m proto.Message) proto.Message { return m.(*sbom.Node).Copy() },
 			func(a, b proto.Message) (bool, bool) { return a.(*sbom.Node).Equal(b.(*sbom.Node)), true }},
 		{"Edge", func() map[string]proto.Message {
